@@ -5,6 +5,7 @@ package main
 // showing that *every* site of a sensitive call is one of the audited ones.
 
 import (
+	"go/constant"
 	"go/token"
 	"fmt"
 	"go/types"
@@ -60,6 +61,11 @@ func (v *Verifier) callSites(pred func(name string) bool) map[string][]string {
 		}
 	}
 	return res
+}
+
+func constantFloat(k *ssa.Const) (float64, bool) {
+	f, exact := constant.Float64Val(constant.ToFloat(k.Value))
+	return f, exact
 }
 
 func isSoughtMap(t types.Type, mp string) bool {
@@ -186,6 +192,92 @@ func (v *Verifier) VerifyStructural(name string, propNames []string) *FuncResult
 		}
 		sort.Strings(bad)
 		mk(len(bad) == 0, fmt.Sprintf("no function of the module iterates over a map; offending: %v", bad))
+	case "items-well-formed":
+		// A-ITEMS, decided on the SSA form: every item of the report is built
+		// by newItem with a constant, positive, finite reference value and one
+		// of the two package-level humaners (which only counts.init writes);
+		// the contents handed to the table are an unnamed top-level section.
+		var bad []string
+		n := 0
+		isHumanerGlobal := func(x ssa.Value) bool {
+			u, ok := x.(*ssa.UnOp)
+			if !ok || u.Op != token.MUL {
+				return false
+			}
+			g, ok := u.X.(*ssa.Global)
+			return ok && g.Pkg.Pkg.Path() == mp+"/counts" && (g.Name() == "Metric" || g.Name() == "Binary")
+		}
+		for _, fn := range v.moduleFuncs() {
+			for _, b := range fn.Blocks {
+				for _, in := range b.Instrs {
+					switch in := in.(type) {
+					case *ssa.Call:
+						callee := in.Call.StaticCallee()
+						if callee == nil || callee.String() != mp+"/sizes.newItem" {
+							continue
+						}
+						n++
+						args := in.Call.Args
+						if len(args) != 8 {
+							bad = append(bad, fn.String()+": newItem with "+fmt.Sprint(len(args))+" arguments")
+							continue
+						}
+						k, isConst := args[7].(*ssa.Const)
+						okScale := false
+						if isConst && k.Value != nil {
+							if f, exact := constantFloat(k); exact || true {
+								okScale = f > 0 && f < 1e300
+							}
+						}
+						if !okScale {
+							bad = append(bad, fn.String()+" ("+v.posStr(in.Pos())+"): reference value is not a positive finite constant")
+						}
+						if !isHumanerGlobal(args[5]) {
+							bad = append(bad, fn.String()+" ("+v.posStr(in.Pos())+"): humaner is not counts.Metric / counts.Binary")
+						}
+					case *ssa.Store:
+						if g, ok := in.Addr.(*ssa.Global); ok && g.Pkg.Pkg.Path() == mp+"/counts" && (g.Name() == "Metric" || g.Name() == "Binary") {
+							if fn.String() != mp+"/counts.init" {
+								bad = append(bad, fn.String()+" writes counts."+g.Name())
+							}
+						}
+					}
+				}
+			}
+		}
+		// the value returned by contents() is newSection("", …)
+		okTop := false
+		if fn := v.findFunc(mp+"/sizes", "(*HistorySize).contents"); fn != nil {
+			okTop = true
+			nret := 0
+			for _, b := range fn.Blocks {
+				for _, in := range b.Instrs {
+					r, ok := in.(*ssa.Return)
+					if !ok || len(r.Results) != 1 {
+						continue
+					}
+					nret++
+					x := r.Results[0]
+					if mi, ok := x.(*ssa.MakeInterface); ok {
+						x = mi.X
+					}
+					c, ok := x.(*ssa.Call)
+					if !ok || c.Call.StaticCallee() == nil || c.Call.StaticCallee().String() != mp+"/sizes.newSection" {
+						okTop = false
+						continue
+					}
+					k, ok := c.Call.Args[0].(*ssa.Const)
+					if !ok || k.Value == nil || k.Value.ExactString() != `""` {
+						okTop = false
+					}
+				}
+			}
+			if nret == 0 {
+				okTop = false
+			}
+		}
+		sort.Strings(bad)
+		mk(len(bad) == 0 && n > 0 && okTop, fmt.Sprintf("all %d newItem call sites pass a positive finite constant reference value and counts.Metric/Binary (written only by counts.init); contents() returns an unnamed top-level section: %v; offending: %v", n, okTop, bad))
 	case "resolver-encapsulation":
 		// Object-invariant methodology for InOrderPathResolver (A-OBJ-INV):
 		// its invariant is established by NewPathResolver and preserved by
